@@ -7,6 +7,7 @@ From Coq Require Import List NArith ZArith.
 Import ListNotations.
 Require Import ITree.Model.Common ITree.Model.RBTree ITree.Model.MapModel.
 Require Import ITree.Spec.Spec ITree.Spec.MapSpec ITree.Proofs.MapProofs ITree.Proofs.MapTheorems.
+Require ITree.Model.ArenaModel ITree.Model.ArenaQuery ITree.Proofs.ArenaProofs ITree.Proofs.ArenaQueryProofs.
 
 (* every valid history runs to completion and produces exactly the reference outputs: lookups return
    the value inserted (as last written through a handle) exactly when the key is present, emptiness is
@@ -33,3 +34,16 @@ Example C04_example :
   valid_history [] h /\ snd (a_run [] h) =
     [UNone; UNone; UNone; UNone; UNone; UNone; UNone; UEnt (Some (3, 33)%Z); UEnt None; UNone; UBool false].
 Proof. vm_compute. repeat split. Qed.
+
+(* the whole MapCollection / SetCollection interface on the parent-pointer arena (Model/ArenaQuery.v:
+   [arena_m_step] = insert, delete by key, delete / read / write through handles, get_value,
+   first_index_less(_by), index_after / index_before, is_empty, clear, each the statement-by-statement
+   transcription of the Rust function, with the slot pool): along any history whose insertions respect
+   the contract it returns the outputs of the tree-level model - the model that C04_map_refines relates
+   to the reference map - and represents its tree with consistent links after every step *)
+Theorem C04_arena_run : forall (fuel: nat) (h: list mop) (a: ArenaModel.astate ment) (s s': mstate) (outs: list mout),
+  MInv s -> ArenaProofs.Rep a ArenaModel.EMPTY (ArenaModel.aroot a) (root s) ->
+  ArenaQueryProofs.run_ok fuel s h -> m_run s h = Ret (s', outs) ->
+  exists a', ArenaQuery.arena_m_run fuel (a, pl s) h = Ret ((a', pl s'), outs) /\
+             ArenaProofs.Rep a' ArenaModel.EMPTY (ArenaModel.aroot a') (root s') /\ MInv s'.
+Proof. exact ArenaQueryProofs.arena_m_run_refines. Qed.
